@@ -1,6 +1,7 @@
 mod core;
 mod docgen;
 mod kdev;
+mod relgen;
 mod props;
 mod strings;
 
@@ -67,6 +68,8 @@ fn main() {
         "C06" => dispatch(props::c06::C06, &cfg, &replay),
         "C07" => dispatch(props::c07::C07, &cfg, &replay),
         "C09" => dispatch(props::c09::C09, &cfg, &replay),
+        "C10" => dispatch(props::c10::RelProp(props::c10::RWhich::C10), &cfg, &replay),
+        "C13" => dispatch(props::c10::RelProp(props::c10::RWhich::C13), &cfg, &replay),
         _ => {
             eprintln!("verif: unknown property {}", id);
             2
